@@ -21,9 +21,33 @@ fn run(cfg: &str, lag: u64, rt: &tokio::runtime::Runtime, out: &mut Vec<Failure>
     }
 }
 
+fn run_proofs(cfg: &str, lag: u64, cached: bool, rt: &tokio::runtime::Runtime, out: &mut Vec<Failure>) {
+    let r = if cfg == "whatsapp_v1" {
+        rt.block_on(akd::vx_export::c13_lagging_proofs::<WhatsAppV1Configuration>(lag, cached))
+    } else {
+        rt.block_on(akd::vx_export::c13_lagging_proofs::<ExperimentalConfiguration<ExampleLabel>>(lag, cached))
+    };
+    if let Ok(bad) = r {
+        if let Some((req, what)) = bad.first() {
+            out.push(Failure {
+                clause: "tree_node/TreeNode.get_child_node#E_named_child_or_error".into(),
+                case: vec!["c13".into(), "proofs".into(), cfg.into(), lag.to_string(), (cached as u8).to_string()],
+                input: format!("[{cfg}] publish 8 labels in epoch 1, {}then {lag} epochs each updating 'b'; {}; ReadOnlyDirectory::{req}",
+                               if cached { "a cached reader serves lookup(a), " } else { "" }, if cached { "the cached reader (still at epoch 1) is asked" } else { "reset the epoch record to 1" }),
+                expected: "an error, or a proof that verifies against (1, root hash of epoch 1)".into(),
+                observed: format!("{what} ({} such answers)", bad.len()),
+                finding_id: None,
+            });
+        }
+    }
+}
+
 pub fn search(_seed: u64, full: bool, rt: &tokio::runtime::Runtime) -> SearchResult {
     let mut out = vec![];
     let mut n = 0;
+    for cfg in ["whatsapp_v1", "experimental"] {
+        for lag in 0..=(if full { 5 } else { 3 }) { for cached in [false, true] { run_proofs(cfg, lag, cached, rt, &mut out); n += 1; } }
+    }
     for cfg in ["whatsapp_v1", "experimental"] {
         for lag in 0..=(if full { 6 } else { 3 }) {
             run(cfg, lag, rt, &mut out);
@@ -35,6 +59,6 @@ pub fn search(_seed: u64, full: bool, rt: &tokio::runtime::Runtime) -> SearchRes
 
 pub fn replay(case: &[&str], rt: &tokio::runtime::Runtime) -> (bool, String) {
     let mut out = vec![];
-    run(case[0], case[1].parse().unwrap(), rt, &mut out);
+    if case[0] == "proofs" { run_proofs(case[1], case[2].parse().unwrap(), case.get(3).map(|s| *s == "1").unwrap_or(false), rt, &mut out); } else { run(case[0], case[1].parse().unwrap(), rt, &mut out); }
     match out.first() { Some(f) => (true, format!("{}: expected {}, observed {}", f.input, f.expected, f.observed)), None => (false, "holds".into()) }
 }
